@@ -48,11 +48,11 @@ Example terms_ok_nonvacuous :
 Proof. split; [repeat constructor|vm_compute; reflexivity]. Qed.
 
 (* ---- application to states: h @ psi, h @ rho ---- *)
-(* full statement  apply_ok : forall n f ms S, ... -> apply_gates n (terms_of ms) S = apply_spec n f S
+(* full statement  apply_ok : forall n f ms S, ... -> apply_gates_prefix n (terms_of ms) S = apply_spec n f S
    is FALSE of the faithful model: SymbolicTerm.__call__ applies the factors in list order *)
 Theorem apply_ok_refuted : exists n f ms S,
   form_ok n f = true /\ Forall (smono_ok n) ms /\ smonos_op n ms = denote n f /\ wfm (2 ^ n) 1 S /\
-  apply_gates n (terms_of ms) S <> apply_spec n f S.
+  apply_gates_prefix n (terms_of ms) S <> apply_spec n f S.
 Proof.
   exists 1, w_xy, w_xy_ms, w_psi0. destruct apply_refuted_witness as (H1 & H2 & H3 & H4 & _).
   repeat split; try assumption; try apply H3. repeat constructor.
@@ -66,7 +66,7 @@ Theorem apply_ok_partial : forall n c f ms S,
   one_factor_per_qubit (fst (terms_of ms)) = true ->
   (fst (terms_of ms) <> [] \/ snd (terms_of ms) <> zi0) ->
   wfm (2 ^ n) c S ->
-  apply_gates n (terms_of ms) S = apply_spec n f S.
+  apply_gates_prefix n (terms_of ms) S = apply_spec n f S.
 Proof. exact apply_partial. Qed.
 Print Assumptions apply_ok_partial.
 
@@ -79,14 +79,14 @@ Proof. split; [repeat constructor|split; [reflexivity|discriminate]]. Qed.
 Theorem apply_ok_fixed : forall n c f ms S,
   Forall (smono_ok n) ms -> smonos_op n ms = denote n f ->
   (fst (terms_of ms) <> [] \/ snd (terms_of ms) <> zi0) -> wfm (2 ^ n) c S ->
-  apply_gates_fixed n (terms_of ms) S = apply_spec n f S.
+  apply_gates n (terms_of ms) S = apply_spec n f S.
 Proof. exact apply_fixed. Qed.
 Print Assumptions apply_ok_fixed.
 
 (* ---- expectation values ---- *)
 Theorem expectation_ok_refuted : exists n f ms psi,
   form_ok n f = true /\ smonos_op n ms = denote n f /\ wfm (2 ^ n) 1 psi /\
-  sym_expect_state n (terms_of ms) psi <> dense_expect_state (denote n f) psi.
+  sym_expect_state_prefix n (terms_of ms) psi <> dense_expect_state (denote n f) psi.
 Proof.
   exists 1, w_ixy, w_ixy_ms, w_psi0. destruct expectation_refuted_witness as (H1 & H2 & _ & H4 & H5).
   repeat split; try assumption. repeat constructor. rewrite H4, H5. discriminate.
@@ -98,8 +98,8 @@ Theorem expectation_ok_partial : forall n f ms psi rho,
   one_factor_per_qubit (fst (terms_of ms)) = true ->
   (fst (terms_of ms) <> [] \/ snd (terms_of ms) <> zi0) ->
   wfm (2 ^ n) 1 psi -> wfm (2 ^ n) (2 ^ n) rho ->
-  sym_expect_state n (terms_of ms) psi = dense_expect_state (denote n f) psi /\
-  sym_expect_dm n (terms_of ms) rho = dense_expect_dm (denote n f) rho.
+  sym_expect_state_prefix n (terms_of ms) psi = dense_expect_state (denote n f) psi /\
+  sym_expect_dm_prefix n (terms_of ms) rho = dense_expect_dm (denote n f) rho.
 Proof. exact expectation_partial. Qed.
 Print Assumptions expectation_ok_partial.
 
@@ -126,7 +126,7 @@ Proof. split; [repeat constructor; discriminate|reflexivity]. Qed.
 
 (* ---- expectation from samples ---- *)
 Theorem samples_expectation_ok_refuted : exists n f ms fr qmap num,
-  smonos_op n ms = denote n f /\ sym_samples (terms_of ms) fr qmap = Some (num, ftotal fr) /\
+  smonos_op n ms = denote n f /\ sym_samples_prefix (terms_of ms) fr qmap = Some (num, ftotal fr) /\
   num <> samples_spec n (denote n f) fr qmap.
 Proof.
   exists 2, w_zzz, w_zzz_ms, w_freq, [0; 1], (-4)%Z.
@@ -135,7 +135,7 @@ Qed.
 Print Assumptions samples_expectation_ok_refuted.
 
 Theorem samples_dense_partial_map_refuted : exists n M fr qmap num,
-  is_diag M = true /\ length M = 2 ^ n /\ dense_samples M fr qmap = Some (num, ftotal fr) /\
+  is_diag M = true /\ length M = 2 ^ n /\ dense_samples_prefix M fr qmap = Some (num, ftotal fr) /\
   num <> samples_spec n M fr qmap.
 Proof.
   exists 3, (denote 3 (FSym PZ 0)), [([false], 2%Z); ([true], 6%Z)], [0], 8%Z.
@@ -167,11 +167,11 @@ Proof. split; vm_compute; reflexivity. Qed.
 Theorem samples_dense_ok_partial : forall n M fr qmap,
   is_diag M = true -> length M = 2 ^ n -> Permutation qmap (seq 0 n) ->
   Forall (fun kc : list bool * Z => length (fst kc) = n) fr ->
-  dense_samples M fr qmap = Some (samples_spec n M fr qmap, ftotal fr).
+  dense_samples_prefix M fr qmap = Some (samples_spec n M fr qmap, ftotal fr).
 Proof. exact samples_dense_perm. Qed.
 Print Assumptions samples_dense_ok_partial.
 
 Example samples_dense_nonvacuous :
   let M := denote 2 (FAdd (FSym PZ 0) (FMul (FNum (2, 0)%Z) (FSym PZ 1))) in
-  is_diag M = true /\ dense_samples M [([true; false], 3%Z); ([false; false], 5%Z)] [1; 0] = Some (12%Z, 8%Z).
+  is_diag M = true /\ dense_samples_prefix M [([true; false], 3%Z); ([false; false], 5%Z)] [1; 0] = Some (12%Z, 8%Z).
 Proof. split; vm_compute; reflexivity. Qed.
